@@ -42,7 +42,7 @@ func isAuthError(err error) bool {
 
 func TestC12L1(t *testing.T) {
 	rec := evid.For("C12")
-	runRapid(t, 600, 5000, func(rt *rapid.T) {
+	runRapid(t, 1500, 20000, func(rt *rapid.T) {
 		c := rec.Begin()
 		c.Class("L1")
 		e := henv.NewL1(henv.L1Options{NoHook: true})
@@ -175,7 +175,7 @@ func TestC12L1(t *testing.T) {
 
 func TestC12L2(t *testing.T) {
 	rec := evid.For("C12")
-	runRapid(t, 600, 5000, func(rt *rapid.T) {
+	runRapid(t, 1500, 20000, func(rt *rapid.T) {
 		c := rec.Begin()
 		c.Class("L2")
 		var users []henv.User
